@@ -212,6 +212,15 @@ def eas_radio_run(N, det_alt):
             row1, row2 = F1.a[i], F2.a[i]
             claims[f"[{i}] decay outside [0,10] km gives exactly zero field in every bin"] = z3.Implies(z3.Not(inr), z3.And(*[x.term() == 0 for x in row1]))
             claims[f"[{i}] field linear in shower energy: F(k*E) == k*F(E) in every bin"] = z3.And(*[y.term() == k * x.term() for x, y in zip(row1, row2)])
+        # independence between events, syntactically: the field row of event i mentions no input of another event
+        from symnp import solve as _solve
+
+        for i in idx:
+            foreign = {f"{n}{j}" for j in idx if j != i for n in ("beta", "theta", "altDec", "lenDec", "pathLen", "E")}
+            used = set()
+            for x in F1.a[i]:
+                used |= _solve.vars_of(SV.of(x).term())
+            claims[f"[{i}] the field row of an event depends on no other event's energy, angles, altitude or path lengths"] = z3.BoolVal(not (used & foreign))
         # alignment of what the parametrisation is asked: zenith, view angle and altitude of row i are event i's own
         zen_a, view_a, h_a = applied["params_args"][0]
         for i in idx:
@@ -375,19 +384,23 @@ def replay(v):
             batches.append((g("beta", 0.1), g("altDec", 5.0), g("lenDec", 30.0), g("theta", 0.9), g("pathLen", 2000.0), g("E", 1.0)))
         b0, l0 = np.array([0.1, 0.2]), np.array([30.0, 400.0])
         batches.append((b0, np.sqrt(Re**2 + l0**2 + 2 * Re * l0 * np.sin(b0)) - Re, l0, np.array([0.9, 1.0]), np.array([2000.0, 2100.0]), np.array([0.5, 2.0])))
+        b1, l1 = np.array([0.1, 0.2, 0.15, 0.3, 0.12]), np.array([400.0, 30.0, 40.0, 900.0, 35.0])  # out-of-range decays in front of and between in-range ones
+        batches.append((b1, np.sqrt(Re**2 + l1**2 + 2 * Re * l1 * np.sin(b1)) - Re, l1, np.array([0.9, 1.0, 0.8, 0.7, 0.95]), np.array([2000.0, 2100.0, 2200.0, 2300.0, 2050.0]), np.array([0.5, 2.0, 1.0, 3.0, 0.25])))
         for beta, alt, ln, th, pl, E in batches:
+            k = np.array([m.get("k", 2.0), 3.0, 5.0, 7.0, 11.0])[:len(E)]  # per-event factors
             with np.errstate(all="ignore"):
                 np.random.seed(4)
                 F1 = er(beta, alt, ln, th, pl, E)
                 np.random.seed(4)
                 F2 = er(beta, alt, ln, th, pl, k * E)
+            k = k[:, None]
             out = (alt < 0) | (alt > 10)
             if not np.all(np.isfinite(F1)):
                 bad = f"non-finite field for events with decay altitudes {alt.tolist()} km, emergence {beta.tolist()} rad (detector at {cfg.detector.initial_position.altitude} km): {F1[~np.isfinite(F1).all(axis=1)][0][:3].tolist()}..."
             elif np.any(F1[out] != 0):
                 bad = f"non-zero field for a decay at {alt[out].tolist()} km"
             elif "linear in shower energy" in ob and not np.allclose(F2, k * F1, rtol=1e-9, atol=0):
-                bad = "field is not linear in the shower energy"
+                bad = f"field is not linear in the event's own shower energy (energies scaled by per-event factors {k.ravel().tolist()}, decay altitudes {np.round(alt, 2).tolist()} km)"
             if bad:
                 break
         if bad:
